@@ -830,3 +830,96 @@ silent('u04-twin-buffer-extended-with-one-element-list', ['C01'], [(CORE, """   
 fires('u05-command-text-formatted-again', ['C12'], [(WORKERS, """                message = self._debug_format.format(id=_id, command=command)
 """, """                message = (self._debug_format + command).format(id=_id, command=command)
 """)], 'braces in the expanded command kill the observer')
+
+# ------------------------------------------------------------------ round 8 seeds: own minimal forms and twins
+fires('v01-tokenizer-from-lru-cached-helper', ['C20', 'C08'], [(CORE, """    tokenizer = StreamTokenizer(
+        validator, min_length, max_length, max_continuous_silence, mode=mode
+    )
+    source.open()
+""", """    tokenizer = _cached_tokenizer(
+        validator, min_length, max_length, max_continuous_silence, mode
+    )
+    source.open()
+"""), (CORE, """def _duration_to_nb_windows(
+""", """@functools.lru_cache(maxsize=32)
+def _cached_tokenizer(validator, min_length, max_length, max_silence, mode):
+    return StreamTokenizer(validator, min_length, max_length, max_silence, mode=mode)
+
+
+def _duration_to_nb_windows(
+"""), (CORE, "import math\n", "import functools\nimport math\n")], 'two live split() generators share one automaton')
+silent('v02-twin-stateless-validator-from-lru-cached-helper', ['C20', 'C08', 'C09'], [(CORE, """        validator = AudioEnergyValidator(
+            energy_threshold, source.sw, source.ch, use_channel=use_channel
+        )
+""", """        validator = _cached_validator(
+            energy_threshold, source.sw, source.ch, use_channel
+        )
+"""), (CORE, """def _duration_to_nb_windows(
+""", """@functools.lru_cache(maxsize=32)
+def _cached_validator(energy_threshold, sample_width, channels, use_channel):
+    return AudioEnergyValidator(energy_threshold, sample_width, channels, use_channel=use_channel)
+
+
+def _duration_to_nb_windows(
+"""), (CORE, "import math\n", "import functools\nimport math\n")], 'the validator has no state that changes while it is used')
+fires('v03-silence-tolerance-copied-at-construction', ['C03'], [(CORE, """        self.max_continuous_silence = max_continuous_silence
+        self.init_min = init_min
+""", """        self.max_continuous_silence = max_continuous_silence
+        self._no_silence = max_continuous_silence <= 0
+        self.init_min = init_min
+"""), (CORE, "            elif self.max_continuous_silence <= 0:\n", "            elif self._no_silence:\n")], 'a copy of a public bound goes stale when the attribute is assigned')
+fires('v04-file-source-end-latch-never-reset', ['C11'], [(IO, """        super().__init__(sampling_rate, sample_width, channels)
+        self._audio_stream = None
+
+    def __del__(self):
+""", """        super().__init__(sampling_rate, sample_width, channels)
+        self._audio_stream = None
+        self._drained = False
+
+    def __del__(self):
+"""), (IO, """        data = self._read_from_stream(size)
+        if not data:
+            return None
+        return data
+""", """        if self._drained:
+            return None
+        data = self._read_from_stream(size)
+        if not data:
+            self._drained = True
+            return None
+        return data
+""")], 'a re-opened source yields nothing')
+silent('v05-twin-file-source-end-latch-reset-by-close', ['C11'], [(IO, """        super().__init__(sampling_rate, sample_width, channels)
+        self._audio_stream = None
+
+    def __del__(self):
+""", """        super().__init__(sampling_rate, sample_width, channels)
+        self._audio_stream = None
+        self._drained = False
+
+    def __del__(self):
+"""), (IO, """        data = self._read_from_stream(size)
+        if not data:
+            return None
+        return data
+""", """        if self._drained:
+            return None
+        data = self._read_from_stream(size)
+        if not data:
+            self._drained = True
+            return None
+        return data
+"""), (IO, """        if self._audio_stream is not None:
+            self._audio_stream.close()
+            self._audio_stream = None
+
+    @abstractmethod
+    def _read_from_stream(self, size):
+""", """        if self._audio_stream is not None:
+            self._audio_stream.close()
+            self._audio_stream = None
+        self._drained = False
+
+    @abstractmethod
+    def _read_from_stream(self, size):
+""")])
